@@ -107,6 +107,47 @@ func NewInterp() *Interp {
 		return o.Proto
 	})
 
+	// Number / String / Boolean prototypes: valueOf and toString are not generic (15.7.4.2/4, 15.5.4.2/3, 15.6.4.2/3)
+	thisPrim := func(in *Interp, this Value, class string) Value {
+		switch v := this.(type) {
+		case float64:
+			if class == "Number" {
+				return v
+			}
+		case string:
+			if class == "String" {
+				return v
+			}
+		case bool:
+			if class == "Boolean" {
+				return v
+			}
+		case *Obj:
+			if v.Class == class && v.Prim != nil {
+				return v.Prim
+			}
+		}
+		panic(in.throwError("TypeError", class+".prototype method called on incompatible receiver"))
+	}
+	for _, cp := range []struct {
+		class string
+		proto *Obj
+	}{{"Number", in.NumberProto}, {"String", in.StringProto}, {"Boolean", in.BooleanProto}} {
+		cp := cp
+		method(cp.proto, "valueOf", 0, func(in *Interp, this Value, _ []Value) Value { return thisPrim(in, this, cp.class) })
+		method(cp.proto, "toString", 0, func(in *Interp, this Value, a []Value) Value {
+			v := thisPrim(in, this, cp.class)
+			if cp.class == "Number" {
+				if _, isU := argAt(a, 0).(undefinedT); !isU {
+					if r := in.toNumber(argAt(a, 0)); r != 10 {
+						panic(Discard{"Number.prototype.toString(radix)"})
+					}
+				}
+			}
+			return in.toString(v)
+		})
+	}
+
 	// Function.prototype
 	method(in.FunctionProto, "toString", 0, func(in *Interp, this Value, _ []Value) Value {
 		panic(Discard{"Function.prototype.toString is implementation-defined"})
